@@ -360,19 +360,167 @@ theorem C04_subscribe_atomic (cfg : Cfg M K R) (h : EqRefl cfg.ops) (s : CState 
   · intro ho; subst ho; exact ⟨hstale, hrest⟩
   · intro ho; subst ho; exact hrest
 
+/-- does this change end a `PullID` stream of its id -/
+def endsStream (e : CEvent M) : Bool := decide (e.kind = .remove) || e.new.isNone
+
+/-- PullID is a filtered Pull: what `PullID(id)` forwards is exactly what the `Pull` with the same
+options delivers, restricted to the changes of that id, cut at (and excluding) the first change that
+removes the item, each as a `ValueChange` carrying the new value and the change time, flagged seed and
+last-seed iff it is the item's seed value; the stream has ended iff such a removing change was
+delivered.  (For every list of delivered changes; `pullIDStream` is this loop over `collStream`.) -/
+theorem C04_pullid_is_filtered_pull (id : String) (es : List (CEvent M)) :
+    (pullIDLoop id es).1 =
+      (((es.filter (fun e => decide (e.id = id))).takeWhile (fun e => !endsStream e)).filterMap
+        (fun e => e.new.map (toDeliv e))) ∧
+    ((pullIDLoop id es).2 = true ↔ ∃ e ∈ es, e.id = id ∧ endsStream e = true) := by
+  induction es with
+  | nil => simp [pullIDLoop]
+  | cons e es ih =>
+    by_cases hid : e.id = id
+    · by_cases hk : e.kind = .remove
+      · simp only [pullIDLoop, hid, ne_eq, not_true_eq_false, ↓reduceIte, hk, List.filter_cons, decide_true,
+          List.takeWhile_cons, endsStream, Bool.true_or, Bool.not_true, Bool.false_eq_true,
+          List.filterMap_nil, List.mem_cons, true_and]
+        exact ⟨fun _ => ⟨e, Or.inl rfl, hid, by simp [hk]⟩, fun _ => trivial⟩
+      · cases hn : e.new with
+        | none =>
+          simp only [pullIDLoop, hid, ne_eq, not_true_eq_false, ↓reduceIte, hk, hn, List.filter_cons, decide_true,
+            List.takeWhile_cons, endsStream, decide_false, Option.isNone_none, Bool.or_true, Bool.not_true,
+            Bool.false_eq_true, List.filterMap_nil, List.mem_cons, true_and]
+          exact ⟨fun _ => ⟨e, Or.inl rfl, hid, by simp [hn]⟩, fun _ => trivial⟩
+        | some v =>
+          have hends : endsStream e = false := by simp [endsStream, hk, hn]
+          simp only [pullIDLoop, hid, ne_eq, not_true_eq_false, ↓reduceIte, hk, hn, List.filter_cons, decide_true,
+            List.takeWhile_cons, hends, Bool.not_false, List.filterMap_cons, Option.map_some, List.mem_cons]
+          refine ⟨by rw [ih.1], ?_⟩
+          rw [ih.2]
+          constructor
+          · rintro ⟨e', he', h1, h2⟩; exact ⟨e', Or.inr he', h1, h2⟩
+          · rintro ⟨e', he' | he', h1, h2⟩
+            · subst he'; rw [hends] at h2; cases h2
+            · exact ⟨e', he', h1, h2⟩
+    · simp only [pullIDLoop, ne_eq, hid, not_false_eq_true, ↓reduceIte, List.filter_cons, decide_false,
+        Bool.false_eq_true, List.mem_cons]
+      refine ⟨ih.1, ?_⟩
+      rw [ih.2]
+      constructor
+      · rintro ⟨e', he', h1, h2⟩; exact ⟨e', Or.inr he', h1, h2⟩
+      · rintro ⟨e', he' | he', h1, h2⟩
+        · subst he'; exact absurd h1 hid
+        · exact ⟨e', he', h1, h2⟩
+
+/-- End on remove: for the stream of a real history, a change delivered without a new value IS a
+REMOVE (the defensive "no new value but not a REMOVE" branch of PullID is dead), so a `PullID` stream
+ends exactly when a REMOVE of its id is delivered, and every change forwarded before that carries
+the new value of an ADD or UPDATE. -/
+theorem C04_pullid_ends_on_remove (cfg : Cfg M K R) (h : EqRefl cfg.ops) (eqv : Eqv M) (o : SubOpts K)
+    (s : CState M R) (id : String) (ops : List (COp M K)) :
+    (∀ e ∈ collStream cfg eqv o s ops, e.new = none ↔ e.kind = .remove) ∧
+    ((pullIDStream cfg eqv o s id ops).2 = true ↔
+      ∃ e ∈ collStream cfg eqv o s ops, e.id = icptId cfg id ∧ e.kind = .remove) := by
+  have hall : ∀ e ∈ collStream cfg eqv o s ops, e.new = none ↔ e.kind = .remove := by
+    intro e he
+    simp only [collStream, List.mem_append, List.mem_filterMap] at he
+    rcases he with he | ⟨b, hb, hf⟩
+    · -- a seed event
+      simp only [collSeed] at he
+      split at he
+      · simp at he
+      · obtain ⟨kv, _, _, _, h3, _, h5, _⟩ := seedEvents_mem _ _ _ e he
+        simp [h3, h5]
+    · obtain ⟨v1, v2, hed⟩ := replay_mem (run_replay cfg h ops s) b hb
+      have hd := (C04_suppression_iff_equiv cfg eqv o b).2 e hf
+      subst hd
+      simp only [filterOpt, Option.map_eq_none_iff]
+      exact ⟨isEdit_new_none hed, isEdit_remove hed⟩
+  refine ⟨hall, ?_⟩
+  unfold pullIDStream
+  rw [(C04_pullid_is_filtered_pull (icptId cfg id) (collStream cfg eqv o s ops)).2]
+  constructor
+  · rintro ⟨e, he, h1, h2⟩
+    refine ⟨e, he, h1, ?_⟩
+    simp only [endsStream, Bool.or_eq_true, decide_eq_true_eq, Option.isNone_iff_eq_none] at h2
+    rcases h2 with h2 | h2
+    · exact h2
+    · exact (hall e he).mp h2
+  · rintro ⟨e, he, h1, h2⟩
+    exact ⟨e, he, h1, by simp [endsStream, h2]⟩
+
+/-- PullID seed: a (not updates-only) `PullID(id)` opened on a state with distinct ids starts with
+exactly one seed value if the item exists — the projected item with its stored change time, flagged
+seed and last-seed wherever the id sorts among the collection's ids — and with none otherwise. -/
+theorem C04_pullid_seed (cfg : Cfg M K R) (s : CState M R) (o : SubOpts K) (id : String) (hn : NodupKeys s.items)
+    (hu : o.updatesOnly = false) :
+    pullIDLoop id (collSeed cfg s o) =
+      match lookup s.items id with
+      | some it => ([{ value := cfg.ops.filter o.readMask it.body, time := it.time, seed := true, lastSeed := true }], false)
+      | none => ([], false) := by
+  have key : ∀ l : List (String × Item M), NodupKeys l →
+      pullIDLoop id (seedEvents cfg.ops o.readMask l) =
+        match lookup l id with
+        | some it => ([{ value := cfg.ops.filter o.readMask it.body, time := it.time, seed := true, lastSeed := true }], false)
+        | none => ([], false) := by
+    intro l
+    induction l with
+    | nil => intro _; rfl
+    | cons x xs ih =>
+      intro hnd
+      obtain ⟨k, v⟩ := x
+      have hnd' : NodupKeys xs := by
+        simp only [NodupKeys, List.map_cons, List.pairwise_cons] at hnd; exact hnd.2
+      have hnot : k = id → lookup xs id = none := by
+        intro hk
+        cases hl : lookup xs id with
+        | none => rfl
+        | some w =>
+          exfalso
+          have hm := (mem_iff_lookup xs hnd' id w).mpr hl
+          simp only [NodupKeys, List.map_cons, List.pairwise_cons, List.mem_map, forall_exists_index, and_imp,
+            forall_apply_eq_imp_iff₂] at hnd
+          exact hnd.1 (id, w) hm hk
+      have ih' := ih hnd'
+      cases xs with
+      | nil =>
+        simp only [seedEvents, pullIDLoop, seedEvent, lookup, ne_eq]
+        by_cases hk : k = id <;> simp [hk, toDeliv]
+      | cons y ys =>
+        simp only [seedEvents, pullIDLoop, seedEvent, ne_eq] at ih' ⊢
+        by_cases hk : k = id
+        · have := hnot hk
+          simp only [this] at ih'
+          simp [hk, lookup, toDeliv, ih']
+        · simp only [hk, not_false_eq_true, ↓reduceIte, lookup]
+          exact ih'
+  have hsl : itemSlice s ({} : ReadReq M K) = s.items := by simp [itemSlice, excluded]
+  have hsorted := sorted_sortById s.items hn
+  have hnd : NodupKeys (sortById s.items) := by
+    unfold NodupKeys
+    exact List.Pairwise.imp (fun h => String.ne_of_lt h) hsorted
+  have hlk : lookup (sortById s.items) id = lookup s.items id := by
+    cases hl : lookup s.items id with
+    | some it => exact (mem_iff_lookup _ hnd id it).mp ((mem_sortById _ _).mpr ((mem_iff_lookup _ hn id it).mpr hl))
+    | none =>
+      cases hl2 : lookup (sortById s.items) id with
+      | none => rfl
+      | some it =>
+        have := (mem_iff_lookup _ hn id it).mp ((mem_sortById _ _).mp ((mem_iff_lookup _ hnd id it).mpr hl2))
+        rw [hl] at this; cases this
+  simp only [collSeed, hu, Bool.false_eq_true, ↓reduceIte, hsl]
+  rw [key _ hnd, hlk]
+
 /-! ## Non-vacuity -/
 
 def exCfg : Cfg Msg Mask (List Nat) := { ops := flatOps, gen := flatGen }
 
-def exInit : CState Msg (List Nat) := Coll.init exCfg [("b", ⟨1, "x", none⟩), ("a", ⟨2, "", some 3⟩)] []
+def exInit : CState Msg (List Nat) := Coll.init exCfg [("b", { a := 1, s := "x", c := none }), ("a", { a := 2, s := "", c := some 3 })] []
 
 /-- the hypothesis of `C04_seed` holds on every state built by `Coll.init` -/
 example (records : List (String × Msg)) : NodupKeys (Coll.init exCfg records []).items :=
   nodupKeys_init exCfg records []
 
 def exHistory : List (COp Msg Mask) :=
-  [ .add "c" ⟨1, "", none⟩ {}, .add "c" ⟨2, "", none⟩ {},
-    .update "c" ⟨5, "", none⟩ { writeTime := some 40 }, .delete "c" {}, .delete "zz" { allowMissing := true } ]
+  [ .add "c" { a := 1, s := "", c := none } {}, .add "c" { a := 2, s := "", c := none } {},
+    .update "c" { a := 5, s := "", c := none } { writeTime := some 40 }, .delete "c" {}, .delete "zz" { allowMissing := true } ]
 
 /-- a subscriber with read mask {a}: two seeds (sorted, last flagged), then ADD, UPDATE, REMOVE — the
 failing Add and the no-op Delete announce nothing -/
